@@ -32,6 +32,8 @@ literally as that theorem states them, from `HX w`.
     (`C03W.no_lost_wakeup5_infer`).
   - `∃ need, C02W.Dyn need w` (C02W, C15D, C16D): `C02W.DynAuto w`; this one is exact
     (`C02W.dynAuto_iff`).
+  - `C09.Inv w.rm` (C09W; its clause `usageEq` quantifies over all resource names): the bounded form
+    `C09W.InvD w.rm`; exact (`C09W.invD_iff`, `HC09W_iff`).
 -/
 import SimProc.Props.C01W
 import SimProc.Props.C02
@@ -42,6 +44,7 @@ import SimProc.Props.C06W
 import SimProc.Props.C06T
 import SimProc.Props.C08W
 import SimProc.Props.C08S
+import SimProc.Props.C09W
 import SimProc.Props.C10W
 import SimProc.Props.C11W
 import SimProc.Props.C12W
@@ -269,6 +272,15 @@ instance (w : World) : Decidable (HC08S w) := by unfold HC08S; infer_instance
 theorem HC08S_iff (w : World) : HC08S w ↔ C08S.Start w :=
   ⟨fun h => ⟨h.1, h.2.1, h.2.2.1, h.2.2.2⟩, fun h => ⟨h.scripts, h.good, h.queue, h.fresh⟩⟩
 
+/-- **C09W**: `C09W.rmInv_reachable` (also `before_init`, `rmInv_reach`, `usage_eq_sum`, …)
+(`C09W.ReqWF w0`, `C09.Inv w0.rm`; the pool invariant of the initial pools in its bounded, decidable
+form `C09W.InvD`, exact by `C09W.invD_iff`). -/
+def HC09W (w : World) : Prop := C09W.ReqWF w ∧ C09W.InvD w.rm
+instance (w : World) : Decidable (HC09W w) := by unfold HC09W; infer_instance
+theorem HC09W_iff (w : World) : HC09W w ↔ C09W.ReqWF w ∧ C09.Inv w.rm := by
+  unfold HC09W; rw [C09W.invD_iff]
+theorem HC09W_sound {w : World} (h : HC09W w) : C09W.ReqWF w ∧ C09.Inv w.rm := (HC09W_iff w).1 h
+
 /-- **C10W**: `C10W.inv0_reachable`, `inv_reachable` (`Cls w0`, `Fresh w0`). -/
 def HC10W (w : World) : Prop := C10W.Cls w ∧ C10W.Fresh w
 instance (w : World) : Decidable (HC10W w) := by unfold HC10W; infer_instance
@@ -395,6 +407,8 @@ def classReport (w : World) : List (String × Bool) :=
     ("C08W", flag (HC08W w)),
     -- `C08S.idle_clock_sound` … : `C08S.Start w`
     ("C08S", flag (HC08S w)),
+    -- `C09W.rmInv_reachable`: `C09W.ReqWF w ∧ C09.Inv w.rm` (through `C09W.InvD`, exact)
+    ("C09W", flag (HC09W w)),
     -- `C10W.inv0_reachable`: `C10W.Cls w ∧ C10W.Fresh w`
     ("C10W", flag (HC10W w)),
     -- `C10W.cbQuiet_reachable`: … `∧ RegQuiet w ∧ CbQuiet w`
@@ -459,6 +473,7 @@ theorem classReport_spec (w : World) :
     (flagOf w "C06W" = some true → C06W.Static' w ∧ C06W.Init w) ∧
     (flagOf w "C08W" = some true → C02.Fresh w ∧ C02V.Static w) ∧
     (flagOf w "C08S" = some true → C08S.Start w) ∧
+    (flagOf w "C09W" = some true → C09W.ReqWF w ∧ C09.Inv w.rm) ∧
     (flagOf w "C10W" = some true → C10W.Cls w ∧ C10W.Fresh w) ∧
     (flagOf w "C10W_Q" = some true → (C10W.Cls w ∧ C10W.Fresh w) ∧ C10W.RegQuiet w ∧ C10W.CbQuiet w) ∧
     (flagOf w "C11W" = some true → C11W.S w ∧ C11W.FreshR w) ∧
@@ -484,7 +499,7 @@ theorem classReport_spec (w : World) :
     (flagOf w "C20W" = some true → C20W.Reg w) := by
   simp only [flagOf, classReport, List.lookup, String.reduceBEq, Option.some.injEq, flag_iff]
   refine ⟨id, HC02_sound, (HC02W_iff w).1, id, id, id, id, id, id, HC05W_sound, HC06W_sound,
-    HC02_sound, (HC08S_iff w).1, id, id, id, id, id, id, id, id, id, id, (HC15DW_iff w).1, ?_, id, id,
+    HC02_sound, (HC08S_iff w).1, HC09W_sound, id, id, id, id, id, id, id, id, id, id, (HC15DW_iff w).1, ?_, id, id,
     HC17W_sound, fun h => ⟨HC17W_sound h.1, h.2⟩, (HC18W_iff w).1, (HC18W_iff w).1, id⟩
   intro h
   exact ⟨h.1, (C02W.dynAuto_iff w).1 h.2⟩
